@@ -151,6 +151,7 @@ PROPS["C14"] = {
     "tests": [
         {"name": "TestProp", "quick": {"shards": 8, "checks": 300}, "thorough": {"shards": 16, "checks": 4000}},
         {"name": "TestHandlers", "quick": {"shards": 4, "checks": 200}, "thorough": {"shards": 8, "checks": 2500}},
+        {"name": "TestSummary", "quick": {"shards": 2, "checks": 150}, "thorough": {"shards": 4, "checks": 1500}},
     ],
     "rule": "cases: (program, stop point k). Programs come from the type-directed generator with loop/call markers; endless ones end in "
             "'while true' or 'for range 1e300'. Non-trivial = the program contains at least one loop or call marker (so a stop must unwind "
